@@ -461,9 +461,9 @@ def _rt3_slices():
 
 def _deliv_slices(tier):
     sl = []
-    targets = [("block", 2, "value", {}), ("leaf", 0, "lname", {"cls": "low"})]
+    targets = [("block", 2, "value", {}), ("leaf", 0, "lname", {"cls": "low"}), ("leaf", 0, "lname", {"cls": "high"})]
     if tier == "thorough":
-        targets += [("block", 0, "bname", {"cls": "low"}), ("leaf", 0, "lname", {"cls": "high"})]
+        targets += [("block", 0, "bname", {"cls": "low"})]
     for skel, slot, kind, extra in targets:
         base = dict({"skel": skel, "slot": slot, "kind": kind, "ni": 1, "nsi": 1, "n": 1}, **extra)
         for d in ("str", "file", "ret", "ret_file"):
